@@ -1,4 +1,50 @@
-(* placeholder until proofs land *)
-From PV Require Import Model.Precision.
-Theorem C13_placeholder : True. Proof. exact I. Qed.
-Print Assumptions C13_placeholder.
+(* C13  Precision mode rounds every bound to the nearest grid point, once and for all.
+   Exact level: x = num/den (den > 0) is any rational (every double is one);
+   [round_units n num den] is the number of 10^-n units of the rounded value, i.e.
+   floor(x * 10^n + 1/2) as the repaired __post_init__ computes it. The binary64
+   evaluation of the same formula is tied bit-for-bit by the correspondence
+   (Model/Precision.v roundF), not proved. Statements only. *)
+From PV Require Import Model.Precision Model.Segment Proofs.PrecisionP.
+
+Theorem C13_nearest_within_half_unit : forall n num den, 0 < den ->
+  2 * Z.abs (round_units n num den * den - num * 10 ^ n) <= den.
+Proof. exact round_nearest. Qed.
+Theorem C13_on_grid_values_unchanged : forall n k, 0 < 10 ^ n -> round_units n k (10 ^ n) = k.
+Proof. exact round_idempotent. Qed.
+Theorem C13_rounding_twice_is_rounding_once : forall n num den, 0 < den -> 0 < 10 ^ n ->
+  round_units n (round_units n num den) (10 ^ n) = round_units n num den.
+Proof. exact round_stable. Qed.
+Theorem C13_no_drift_under_rewrapping : forall n k u, 0 < 10 ^ n -> rewrap n k u = u.
+Proof. exact no_drift. Qed.
+(* operations only select among existing bounds (C03 model), so their re-rounded results are unchanged *)
+Theorem C13_operations_keep_grid_bounds : forall n (a b : seg), 0 < 10 ^ n ->
+  let r k := round_units n k (10 ^ n) in
+  (r (st (sand a b)), r (en (sand a b))) = sand a b /\
+  (r (Z.min (st a) (st b)), r (Z.max (en a) (en b))) = (Z.min (st a) (st b), Z.max (en a) (en b)).
+Proof.
+  intros n a b H r. unfold r. rewrite !round_idempotent by assumption. split; [now destruct (sand a b) | reflexivity].
+Qed.
+Theorem C13_monotone : forall n n1 d1 n2 d2, 0 < d1 -> 0 < d2 -> 0 <= 10 ^ n ->
+  n1 * d2 <= n2 * d1 -> round_units n n1 d1 <= round_units n n2 d2.
+Proof. exact round_monotone. Qed.
+Theorem C13_equal_roundings_give_equal_hashes : forall n (H : Type) (h : Z -> H) a b c d,
+  round_units n a b = round_units n c d -> h (round_units n a b) = h (round_units n c d).
+Proof. exact (fun n H h => round_congruent n h). Qed.
+(* finding F1 (fixed): the old int()-based formula is neither nearest nor idempotent on negative values *)
+Theorem C13_truncation_refuted :
+  (exists num den, 0 < den /\ ~ (2 * Z.abs (round_units_old 0 num den * den - num * 1) <= den)) /\
+  (exists k, round_units_old 0 k 1 <> k).
+Proof. exact truncation_refuted. Qed.
+
+Example C13_nonvacuous :
+  round_units 1 (-3) 10 = -3 /\ round_units 0 (-5) 2 = -2 /\ round_units 2 1 3 = 33 /\ 0 < 10 ^ 6.
+Proof. vm_compute. repeat split. Qed.
+
+Print Assumptions C13_nearest_within_half_unit.
+Print Assumptions C13_on_grid_values_unchanged.
+Print Assumptions C13_rounding_twice_is_rounding_once.
+Print Assumptions C13_no_drift_under_rewrapping.
+Print Assumptions C13_operations_keep_grid_bounds.
+Print Assumptions C13_monotone.
+Print Assumptions C13_equal_roundings_give_equal_hashes.
+Print Assumptions C13_truncation_refuted.
